@@ -16,6 +16,7 @@ import (
 	"strconv"
 	"strings"
 	"sync"
+	"sync/atomic"
 	"testing"
 	"time"
 
@@ -45,11 +46,14 @@ type Case struct {
 	SkipMark    bool   `json:"skip_mark"`    // backend sets templ-skip-modify: true
 	AcceptEnc   bool   `json:"accept_enc"`   // client sends Accept-Encoding itself (as browsers do)
 	Chunked     bool   `json:"chunked"`      // backend flushes early (no Content-Length from the backend)
+	// DropFirst: the backend closes the connection without answering for the first N attempts of
+	// this exchange (the application is just restarting); the proxy tries again.
+	DropFirst int `json:"drop_first,omitempty"`
 }
 
 var rec = ev.New("C20", "c20.proxy",
 	"generated exchanges over real loopback HTTP (backend httptest.Server -> proxy.New handler -> client without transparent decompression): well-formed HTML documents from a content-model-respecting grammar (doctype?, html/head/body explicit or omitted, nested block/inline content, existing scripts/styles/comments, attributes, entities, non-ASCII; up to several MiB) "+
-		"x encodings {none, gzip, br, deflate, zstd, junk} x content types {text/html, +charset, json, plain, css} x CSP shapes x {plain, HX-Request, skip marker} x {Content-Length, chunked}. "+
+		"x encodings {none, gzip, br, deflate, zstd, junk} x content types {text/html, +charset, json, plain, css} x CSP shapes x {plain, HX-Request, skip marker} x {Content-Length, chunked} x {answered at once, backend closing the connection without an answer for the first 1-3 attempts}. "+
 		"Oracle: for HTML in identity/gzip/br the body decoded per the received Content-Encoding must parse to the original DOM plus exactly one <script src=/_templ/reload/script.js [nonce]> as last child of body, nonce = first nonce of script-src, Content-Length = bytes received; everything else byte-identical with unchanged headers. "+
 		"Non-trivial = encoded body, CSP present, body > 64 KiB, or a pass-through class; distinct by exchange")
 
@@ -109,6 +113,7 @@ func decode(enc string, b []byte) ([]byte, error) {
 
 var (
 	cases    sync.Map // key -> Case
+	attempts sync.Map // key -> *int32, attempts seen by the backend
 	proxyURL string
 	client   = &http.Client{Transport: &http.Transport{DisableCompression: true, MaxIdleConnsPerHost: 16}}
 	keyMu    sync.Mutex
@@ -123,6 +128,18 @@ func setup() {
 			return
 		}
 		c := v.(Case)
+		if c.DropFirst > 0 {
+			key := strings.TrimPrefix(r.URL.Path, "/")
+			n, _ := attempts.LoadOrStore(key, new(int32))
+			if atomic.AddInt32(n.(*int32), 1) <= int32(c.DropFirst) {
+				if hj, ok := w.(http.Hijacker); ok {
+					if conn, _, err := hj.Hijack(); err == nil {
+						conn.Close()
+						return
+					}
+				}
+			}
+		}
 		body := encode(c.Encoding, []byte(c.doc()))
 		w.Header().Set("Content-Type", c.ContentType)
 		if c.Encoding != "" {
@@ -564,6 +581,10 @@ func TestPropProxy(t *testing.T) {
 			SkipMark:  rapid.IntRange(0, 7).Draw(t, "skip") == 0,
 			AcceptEnc: rapid.IntRange(0, 4).Draw(t, "ae") > 0,
 			Chunked:   rapid.IntRange(0, 3).Draw(t, "chunked") == 0,
+		}
+		if rapid.IntRange(0, 24).Draw(t, "restart") == 0 {
+			c.DropFirst = rapid.IntRange(1, 3).Draw(t, "dropFirst")
+			rec.Class("backend drops the first attempts (application restarting)")
 		}
 		// sizes just past the round limits a buffering intermediary might impose
 		if parts := strings.SplitN(c.Doc, "<!--REP-->", 3); len(parts) == 3 && len(parts[1]) > 0 && rapid.IntRange(0, 39).Draw(t, "big") == 0 {
